@@ -296,7 +296,7 @@ int main(int argc, char** argv) {
   e.name = "sim-rand";
   e.run = run;
   e.quick_runs = 60000;
-  e.thorough_runs = 1500000;
+  e.thorough_runs = 3000000;
   e.quick_cap_s = 120;
   e.thorough_cap_s = 1500;
   e.rule =
